@@ -23,7 +23,7 @@ worker() { k=$1; d=$base$k
       mut:*)   # a mechanical mutant (tools/mutate.py): only interesting if the repository's own suite lets it through
         pdir=${patch#mut:}
         if ! git -C $d/repo apply $pdir/patch.diff 2>/dev/null; then echo "$patch PATCH-DOES-NOT-APPLY"; continue; fi
-        suite=$(cd $d/repo && CARGO_NET_OFFLINE=true cargo test --workspace --no-fail-fast --offline 2>&1 | grep -E "^test result|^error" | awk '/^error/ {e=1} /^test result/ {f+=$6} END {if (e) print "build-error"; else print f" failed"}')
+        suite=$(cd $d/repo && CARGO_NET_OFFLINE=true timeout 900 cargo test --workspace --no-fail-fast --offline 2>&1 | grep -E "^test result|^error" | awk '/^error/ {e=1} /^test result/ {f+=$6} END {if (e) print "build-error"; else print f" failed"}')
         if [ "$suite" != "0 failed" ]; then echo "$patch KILLED-BY-SUITE ($suite)"; continue; fi
         hit=""
         for p in $props; do
